@@ -247,9 +247,13 @@ impl RetryBudget for TokenBucketBudget {
 
     fn deposit(&self) {
         const SCALE: u64 = 1000;
-        let current = self.tokens.load(Ordering::Relaxed);
-        let new_tokens = (current + SCALE).min(self.max_tokens);
-        self.tokens.store(new_tokens, Ordering::Relaxed);
+        // Read-modify-write in one atomic step: a separate load and store would
+        // overwrite (and thereby refund) withdrawals made in between
+        let _ = self
+            .tokens
+            .fetch_update(Ordering::Relaxed, Ordering::Relaxed, |current| {
+                Some((current + SCALE).min(self.max_tokens))
+            });
     }
 
     fn balance(&self) -> usize {
@@ -329,11 +333,14 @@ impl RetryBudget for AimdBudget {
 
     fn deposit(&self) {
         let current_max = self.limit_controller.limit() as u64;
-        let current = self.tokens.load(Ordering::Relaxed);
 
-        // Additive increase: add deposit amount, cap at current max
-        let new_tokens = (current + self.deposit_amount).min(current_max);
-        self.tokens.store(new_tokens, Ordering::Relaxed);
+        // Additive increase: add deposit amount, cap at current max (one atomic step,
+        // so that concurrent withdrawals are not overwritten)
+        let _ = self
+            .tokens
+            .fetch_update(Ordering::Relaxed, Ordering::Relaxed, |current| {
+                Some((current + self.deposit_amount).min(current_max))
+            });
 
         // Also slowly increase the max back toward absolute max via controller
         self.limit_controller.record_success();
